@@ -45,8 +45,14 @@ pub fn mk_config(cfg: &Cfg, root: &str) -> Config {
     }
 }
 
-pub fn capable() -> FsOptions {
-    FsOptions::WRITEBACK_CACHE | FsOptions::ZERO_MESSAGE_OPEN | FsOptions::ZERO_MESSAGE_OPENDIR | FsOptions::HANDLE_KILLPRIV_V2
+pub fn capable(cfg: &Cfg) -> FsOptions {
+    let mut o = FsOptions::ASYNC_READ | FsOptions::BIG_WRITES;
+    for (bit, f) in [(1u8, FsOptions::WRITEBACK_CACHE), (2, FsOptions::ZERO_MESSAGE_OPEN), (4, FsOptions::ZERO_MESSAGE_OPENDIR), (8, FsOptions::HANDLE_KILLPRIV_V2)] {
+        if cfg.nocap & bit == 0 {
+            o |= f;
+        }
+    }
+    o
 }
 
 pub struct MemW(pub Vec<u8>);
@@ -137,7 +143,7 @@ impl Imp {
                 // under a VFS the mount path imports the root; standalone does it in `init`
                 fs.import()?;
             }
-            fs.init(capable())?;
+            fs.init(capable(cfg))?;
             Ok::<_, io::Error>(fs)
         })();
         let init_trace = hook::stop();
